@@ -1,4 +1,5 @@
 import DracoProofs.KdTreeSize
+import DracoProofs.KdTreeValid
 import Generated.FastDivTab
 /-
   C01 for the kd-tree point cloud coder — staging file of the kd-tree slice, to be merged into
@@ -126,6 +127,24 @@ theorem kdtree_encoder_calls_valid (part : Kd.Partition) (hpart : Kd.PartSpec pa
 
 example : Kd.InBox ⟨2, 3, false, 1⟩ (List.replicate 2 0) (List.replicate 2 0) [7, 5] := by
   refine ⟨rfl, ?_⟩
+  decide
+
+/-! ### C03 (staging): the kd-tree decoder model returns only valid geometries -/
+
+/-- **C03 on the kd-tree path.**  Whenever the model of `PointCloudKdTreeDecoder`
+    (`DecodeGeometryData` + `DecodePointAttributes` with `KdTreeAttributesDecoder`s, bitstream 2.3)
+    reports success — on any byte string and for any skip options — the geometry is
+    structurally valid: every attribute has at least one component, a known data type, an
+    identity map with `num_points` values and a buffer of exactly
+    `num_points · stride` bytes. -/
+theorem kdtree_decoded_geometry_valid (opts : DecOpts) (s s' : DSt) (g : Geometry)
+    (h : Kd.decodeKdGeometry opts s = (some g, s')) : g.valid = true :=
+  Kd.decodeKdGeometry_valid opts s s' g h
+
+/-- non-vacuity: a 3-point cloud without attribute decoders is accepted (streams with
+    attributes are exercised by the correspondence cases) -/
+example : (Kd.decodeKdGeometry {} { rest := [3, 0, 0, 0, 0], version := 515 }).1 =
+    some { isMesh := false, numPoints := 3, faces := [], atts := [] } := by
   decide
 
 end Draco.C01Kd
